@@ -31,9 +31,10 @@ const (
 // ---- scenario description ----
 
 type call struct {
-	gap int // ms slept before the call
-	key string
-	val int
+	gap   int // ms slept before the call
+	key   string
+	val   int
+	extra time.Duration // sub-millisecond part of the gap
 }
 
 // subscriber kinds
@@ -81,7 +82,11 @@ func (s scen) name() string {
 	for _, cs := range s.prods {
 		var c []string
 		for _, x := range cs {
-			c = append(c, fmt.Sprintf("%s%d", x.key, x.gap))
+			if x.extra != 0 {
+				c = append(c, fmt.Sprintf("%s%g", x.key, float64(x.gap)+float64(x.extra)/float64(ms)))
+			} else {
+				c = append(c, fmt.Sprintf("%s%d", x.key, x.gap))
+			}
 		}
 		p = append(p, strings.Join(c, "."))
 	}
@@ -205,8 +210,8 @@ func mkExec(s scen) *mc.Exec {
 			pi, cs := pi, cs
 			mc.GoNamed(fmt.Sprintf("prod%d", pi), func() {
 				for _, c := range cs {
-					if c.gap > 0 {
-						mc.TimeSleep(time.Duration(c.gap) * ms)
+					if c.gap > 0 || c.extra > 0 {
+						mc.TimeSleep(time.Duration(c.gap)*ms + c.extra)
 					}
 					r := byVal[c.val]
 					r.subsBefore = make([]bool, len(subs))
@@ -690,6 +695,7 @@ const (
 	classSlow     = "batcher/slow-staying-reader"
 	classPreCanc  = "batcher/subscribe-with-ended-context"
 	classReorder  = "batcher/same-sequence-with-backed-up-stayer"
+	classFine     = "batcher/debounce-timeline-sub-millisecond"
 )
 
 func classOf(s scen) string {
@@ -755,9 +761,10 @@ func parse(base int, spec string) []call {
 	// "a0 b0 a11": key + gap
 	var out []call
 	for i, f := range strings.Fields(spec) {
-		var g int
-		fmt.Sscanf(f[1:], "%d", &g)
-		out = append(out, call{gap: g, key: f[:1], val: base + i})
+		var g float64
+		fmt.Sscanf(f[1:], "%g", &g)
+		whole := int(g)
+		out = append(out, call{gap: whole, extra: time.Duration((g - float64(whole)) * float64(ms)), key: f[:1], val: base + i})
 	}
 	return out
 }
@@ -903,6 +910,19 @@ func scaledScenarios() []hx.Scenario {
 			}
 		}
 	}
+	// (K) timeline mode at sub-millisecond granularity: two keys batched 0.6-1.9
+	// ms apart (the queue only runs an item "right away" when it is less than
+	// 0.5 ms from due, so every gap here is served by a timer), optionally the
+	// second key batched again inside what is left of its interval. Oracle: the
+	// exact timeline (delivered exactly one interval after the call, never
+	// early; a value replaced inside its interval never arrives).
+	for _, g := range []string{"0.6", "1", "1.5", "1.9"} {
+		for bi, batch := range []string{"a0 b" + g, "a0 b" + g + " b9", "a0 b" + g + " b4", "a0 a" + g + " b" + g, "a0 b" + g + " a" + g} {
+			for si, ss := range [][]sub{{p}, {p, p}} {
+				add(scen{prods: [][]call{parse(1, batch)}, subs: ss, closeAt: -1, timeline: true, class: classFine}, 2, 3, si > 0 || bi > 1)
+			}
+		}
+	}
 	// (I) Subscribe with a context that has already ended: the subscriber's
 	// channel is closed once Close has returned (the unchanged code registers
 	// it, its forwarder leaves at once and closes the channel), deliveries to
@@ -982,7 +1002,7 @@ func scaledScenarios() []hx.Scenario {
 	// skips the tail: the departing-subscriber families go first
 	rank := func(c string) int {
 		switch c {
-		case classMulti, classSlow, classPreCanc, classReorder:
+		case classMulti, classSlow, classPreCanc, classReorder, classFine:
 			return -1
 		case classDuring, classStall:
 			return 0
